@@ -32,4 +32,13 @@ VARIANTS = [
         dict(file=VS, old="atoms=[new_node_id, node_id],", new="atoms=[new_node_id, new_node_id - 1],")]),
     dict(name='benign-window-rewritten', expect='silent', edits=[
         dict(file=SB, old="if self.cutoff_long > dist > self.cutoff_short:", new="if dist < self.cutoff_long and self.cutoff_short < dist:")]),
+    dict(name='go-map-reader-chain-resid-swapped', expect='fire', key='SIB-contact-layout|reader', edits=[
+        dict(file='vermouth/rcsu/contact_map.py', old="contacts.append((int(tokens[5]), tokens[4], int(tokens[9]), tokens[8]))", new="contacts.append((tokens[4], int(tokens[5]), tokens[8], int(tokens[9])))")]),
+    dict(name='go-map-reader-takes-csu-column', expect='fire', key='SIB-contact-layout|reader-filter', edits=[
+        dict(file='vermouth/rcsu/contact_map.py', old='tokens[11] == "0" and tokens[14] == "1"', new='tokens[11] == "0" and tokens[12] == "1"')]),
+    dict(name='generator-keeps-destabilised-contacts', expect='fire', key='SIB-contact-layout|generator-filter', edits=[
+        dict(file='vermouth/rcsu/contact_map.py', old="            if over == 1 or (over == 0 and rcsu):", new="            if over == 1 or over == 0:")]),
+    dict(name='benign-reader-filter-nested', expect='silent', edits=[
+        dict(file='vermouth/rcsu/contact_map.py', old='                if tokens[11] == "1" or (tokens[11] == "0" and tokens[14] == "1"):\n                    # this is a OV or rCSU contact we take it\n                    contacts.append((int(tokens[5]), tokens[4], int(tokens[9]), tokens[8]))',
+             new='                take = tokens[11] == "1"\n                if not take and tokens[11] == "0":\n                    take = tokens[14] == "1"\n                if take:\n                    contacts.append((int(tokens[5]), tokens[4], int(tokens[9]), tokens[8]))')]),
 ]
